@@ -28,9 +28,10 @@ pub const NAMES_C15: &[&str] = &[
     "a", "b", "c", "d", "x", "list", "elems", "k1", "_u", "é", "0", "1", "a b", "key", "a/b", "~", "'a'", "\"a\"", "it's", "'", "\"", "a'", "'a", "\"b", "''",
 ];
 
-pub const PATTERNS: &[&str] = &["a", "a|b", "x.y", "^a", "b$", "[ab]+", "(", "\\d+", "(?i)A", ".*", "a.*", "ab"];
+// "Aa" and "BB" (and their concatenations) collide under the classic h*31+c string hash
+pub const PATTERNS: &[&str] = &["a", "a|b", "x.y", "^a", "b$", "[ab]+", "(", "\\d+", "(?i)A", ".*", "a.*", "ab", "Aa", "BB", "AaBB", "BBAa"];
 
-pub const STRINGS: &[&str] = &["", "a", "b", "ab", "xay", "A", "1", "aa", "ba", "a b", " a", "a\tb"];
+pub const STRINGS: &[&str] = &["", "a", "b", "ab", "xay", "A", "1", "aa", "ba", "a b", " a", "a\tb", "Aa", "BB"];
 
 /// Rare scalars at the edges: large and extreme integers (all within i64), tiny and huge floats,
 /// negative zero, a long string, strings with regex metacharacters or non-ASCII text.
@@ -473,7 +474,14 @@ impl<'a> QGen<'a> {
     fn literal(&self, rng: &mut Rng) -> String {
         match rng.weighted(&[4, 2, 4, 1, 1, 1]) {
             0 => rng.pick(&["0", "1", "-1", "2", "100", "10", "3"]).to_string(),
-            1 => rng.pick(&["1.0", "1.5", "1e2", "-0.5", "2.5"]).to_string(),
+            1 => {
+                if rng.chance(1, 8) {
+                    // integral values written as floats, around 2^53 and 2^31
+                    rng.pick(&["9007199254740992.0", "9007199254740993", "9007199254740992", "2147483648.0", "1e300", "-9007199254740992.0", "9.007199254740992e15"]).to_string()
+                } else {
+                    rng.pick(&["1.0", "1.5", "1e2", "-0.5", "2.5"]).to_string()
+                }
+            }
             2 => {
                 let s = rng.pick(STRINGS);
                 if self.fancy && rng.chance(1, 3) {
@@ -688,6 +696,13 @@ pub fn invalidate(rng: &mut Rng, q: &str) -> String {
 /// (or one of them is not a query at all).
 pub fn twin(rng: &mut Rng, q: &str) -> String {
     let cs: Vec<char> = q.chars().collect();
+    if q.contains("Aa") && rng.chance(1, 2) {
+        // same length, same h*31+c hash
+        return q.replacen("Aa", "BB", 1);
+    }
+    if q.contains("BB") && rng.chance(1, 2) {
+        return q.replacen("BB", "Aa", 1);
+    }
     match rng.below(8) {
         0 => format!(" {}", q),
         1 => format!("{} ", q),
